@@ -258,6 +258,15 @@ class DesignSampler(Sampler):
             design = np.repeat(design[np.newaxis, ...], n_real, axis=0)
         assert design.shape == (n_real, n_pert, dim), (design.shape, (n_real, n_pert, dim))
         self._calls += 1
+        if self._sampler_config.options.get("reuse"):
+            # a sampler that keeps its (constant) samples and returns the same array object on every call
+            if getattr(self, "_stored", None) is None:
+                if self._mask is None:
+                    self._stored = design.copy()
+                else:
+                    self._stored = np.zeros((n_real, n_pert, n_var), dtype=np.float64)
+                    self._stored[..., self._mask] = design
+            return self._stored
         if self._mask is None:
             return design.copy()
         result = np.zeros((n_real, n_pert, n_var), dtype=np.float64)
